@@ -191,6 +191,10 @@ class _Expr(ast.NodeTransformer):
 
     def visit_Compare(self, n: ast.Compare):
         self.generic_visit(n)
+        ci = self._class_identity(n)
+        if ci is not None:
+            self.changed = True
+            return ast.copy_location(ci, n)
         if len(n.ops) == 1 and isinstance(n.ops[0], (ast.In, ast.NotIn)) and _simple_key(n.left):
             rows = self.t.rows(n.comparators[0], allow_dynamic_values=True)
             # only a table that the function also *indexes* is a dispatch table; a list used as a set of names is left alone
@@ -207,6 +211,37 @@ class _Expr(ast.NodeTransformer):
                 return ast.copy_location(e, n)
         return n
 
+    def visit_ListComp(self, n: ast.ListComp):
+        self.generic_visit(n)
+        # [E(x) for x in (a, b, c)]  ->  [E(a), E(b), E(c)]
+        if len(n.generators) == 1 and not n.generators[0].ifs and not n.generators[0].is_async \
+                and isinstance(n.generators[0].iter, (ast.Tuple, ast.List)) and 0 < len(n.generators[0].iter.elts) <= MAX_ROWS \
+                and all(_row_ok(v) for v in n.generators[0].iter.elts):
+            binds = [_bind_row(n.generators[0].target, v) for v in n.generators[0].iter.elts]
+            if all(b is not None for b in binds):
+                self.changed = True
+                elts = [self.visit(_SubNames(b).visit(copy.deepcopy(n.elt))) for b in binds]
+                return ast.copy_location(ast.List(elts=elts, ctx=ast.Load()), n)
+        return n
+
+    def visit_IfExp(self, n: ast.IfExp):
+        self.generic_visit(n)
+        if isinstance(n.test, ast.Constant) and isinstance(n.test.value, bool):
+            self.changed = True
+            return n.body if n.test.value else n.orelse
+        return n
+
+    def _class_identity(self, n: ast.Compare):
+        """A is B / A is not B / A == B for two names that denote classes of the package: a constant."""
+        if len(n.ops) == 1 and isinstance(n.ops[0], (ast.Is, ast.IsNot, ast.Eq, ast.NotEq)) and isinstance(n.left, ast.Name) \
+                and isinstance(n.comparators[0], ast.Name):
+            a = self.t.model.resolve_class(self.t.f.module, n.left) if not self.t._is_local(n.left.id) else None
+            b = self.t.model.resolve_class(self.t.f.module, n.comparators[0]) if not self.t._is_local(n.comparators[0].id) else None
+            if a is not None and b is not None:
+                same = a is b
+                return ast.Constant(value=same if isinstance(n.ops[0], (ast.Is, ast.Eq)) else not same)
+        return None
+
     def visit_Subscript(self, n: ast.Subscript):
         self.generic_visit(n)
         if isinstance(n.ctx, ast.Load) and not isinstance(n.slice, ast.Slice) and _simple_key(n.slice):
@@ -220,6 +255,11 @@ class _Expr(ast.NodeTransformer):
     def visit_Call(self, n: ast.Call):
         self.generic_visit(n)
         f = n.func
+        if isinstance(f, ast.Name) and f.id in ("list", "tuple") and len(n.args) == 1 and not n.keywords and isinstance(n.args[0], (ast.Tuple, ast.List)) \
+                and all(_row_ok(v) for v in n.args[0].elts):
+            self.changed = True
+            lit = ast.List(elts=n.args[0].elts, ctx=ast.Load()) if f.id == "list" else ast.Tuple(elts=n.args[0].elts, ctx=ast.Load())
+            return ast.copy_location(lit, n)
         if isinstance(f, ast.Name) and f.id in ("dict", "list", "tuple") and not n.args and not n.keywords:
             self.changed = True
             return ast.copy_location({"dict": ast.Dict(keys=[], values=[]), "list": ast.List(elts=[], ctx=ast.Load()),
@@ -299,6 +339,11 @@ class _Stmt:
         i = 0
         while i < len(stmts):
             s = stmts[i]
+            # x: T = v  ->  x = v   (annotations carry no behaviour) -- except in __init__, whose attribute annotations the
+            # receiver typing reads
+            if isinstance(s, ast.AnnAssign) and s.value is not None and self.t.f.name != "__init__":
+                s = ast.copy_location(ast.Assign(targets=[s.target], value=s.value, lineno=s.lineno), s)
+                self.changed = True
             # T = T op V  ->  T op= V
             if isinstance(s, ast.Assign) and len(s.targets) == 1 and isinstance(s.value, ast.BinOp) \
                     and isinstance(s.targets[0], (ast.Name, ast.Attribute, ast.Subscript)) \
@@ -306,19 +351,35 @@ class _Stmt:
                     and not any(isinstance(x, ast.Call) for x in ast.walk(s.targets[0])):
                 s = ast.copy_location(ast.AugAssign(target=s.targets[0], op=s.value.op, value=s.value.right), s)
                 self.changed = True
-            # a, b = TABLE[k]; REST  ->  if/elif chain
+            # a, b = TABLE[k]; REST   /   a, b = TABLE.get(k, DEFAULT); REST   ->  if/elif chain
+            look = None
             if isinstance(s, ast.Assign) and len(s.targets) == 1 and isinstance(s.value, ast.Subscript) \
                     and not isinstance(s.value.slice, ast.Slice) and _simple_key(s.value.slice):
-                rows = self.t.rows(s.value.value)
+                look = (s.value.value, s.value.slice, None)
+            elif isinstance(s, ast.Assign) and len(s.targets) == 1 and isinstance(s.value, ast.Call) and isinstance(s.value.func, ast.Attribute) \
+                    and s.value.func.attr == "get" and len(s.value.args) == 2 and not s.value.keywords and _simple_key(s.value.args[0]):
+                d = s.value.args[1]
+                if isinstance(d, ast.Name) and not self.t._is_local(d.id):
+                    d = self.t.f.module.assigns.get(d.id, d)
+                if _row_ok(d) and not isinstance(d, ast.Name):
+                    look = (s.value.func.value, s.value.args[0], d)
+            if look is not None:
+                rows = self.t.rows(look[0])
                 rest = stmts[i + 1:]
                 if isinstance(rows, list) and rest:
                     binds = [_bind_row(s.targets[0], v) for _, v in rows]
+                    dbind = _bind_row(s.targets[0], look[2]) if look[2] is not None else None
+                    if look[2] is not None and dbind is None:
+                        binds = [None]
                     names = set(binds[0]) if binds and binds[0] is not None else set()
                     if all(b is not None for b in binds) and not _stores(rest, names):
                         self.changed = True
-                        key = s.value.slice
+                        key = look[1]
                         chain: Optional[ast.stmt] = None
-                        dflt: list = [ast.copy_location(ast.Raise(exc=ast.Call(func=ast.Name(id="KeyError", ctx=ast.Load()), args=[copy.deepcopy(key)], keywords=[]), cause=None), s)]
+                        if dbind is not None:
+                            dflt = self.block([_SubNames(dbind).visit(copy.deepcopy(x)) for x in rest])
+                        else:
+                            dflt = [ast.copy_location(ast.Raise(exc=ast.Call(func=ast.Name(id="KeyError", ctx=ast.Load()), args=[copy.deepcopy(key)], keywords=[]), cause=None), s)]
                         orelse = dflt
                         for (k, _), b in reversed(list(zip(rows, binds))):
                             body = [_SubNames(b).visit(copy.deepcopy(x)) for x in rest]
